@@ -50,6 +50,8 @@ def rel_inv(rng):
             loc = list(d[:-1])
         else:
             stem = ('k%d.v' % i) if dotted and rng.random() < 0.5 else 'k%d' % i
+            if rng.random() < 0.12:
+                stem = rng.choice(['init.local%d', 'init%d', 'initx.k%d', 'x.init.k%d']) % i     # ordinary classes whose file name begins like an init file
             path = d + (stem + '.yml',)
             name = '.'.join(d + (stem,))
             loc = list(d)
